@@ -217,6 +217,78 @@ def scenario_under_lock(ctx, cmd, sig):
             "holder_rc": hrc, "lock_after_holder_exit": None if lock_after is None else lock_after.decode("utf-8", "replace")}
 
 
+DRY_RUNS = {"rename --dry-run": ["rename", "foo_bar", "baz_qux", "--dry-run", "--no-auto-init"],
+            "plan --dry-run": ["plan", "foo_bar", "baz_qux", "--dry-run", "--no-auto-init"],
+            "search": ["search", "foo_bar", "--no-auto-init"]}
+
+
+def scenario_dry_run(ctx, name, held):
+    """a dry run takes no lock and writes nothing: under a held lock it still runs, and on a fresh tree it does not
+    even create .renamify/"""
+    with common.scratch() as ws:
+        make_ws(ws)
+        h = None
+        if held:
+            h = Holder(ws, 20000)
+            if not h.wait_acquired():
+                h.finish(signal.SIGKILL)
+                raise RuntimeError("test-lock did not acquire")
+        else:
+            os.rmdir(os.path.join(ws, ".renamify"))
+        try:
+            holder_lock = lock_text(ws)
+            before = tree_snap(ws)
+            rc, out, err = common.cli(DRY_RUNS[name], ws, timeout=60)
+            after = tree_snap(ws)
+            intact = lock_text(ws) == holder_lock
+        finally:
+            if h is not None:
+                h.finish(signal.SIGTERM)
+        return {"scenario": "dry_run", "name": name, "held": held, "rc": rc, "touched": before != after,
+                "diff": common.snap_diff(before, after, limit=3), "lock_intact": intact,
+                "refused": rc != 0 and b"already running" in err, "stderr": err.decode("utf-8", "replace")[-200:]}
+
+
+def scenario_prompt_sigint(ctx):
+    """Ctrl-C while `rename` waits at its confirmation prompt (the handler exits the process itself): exit 130,
+    nothing changed, lock file gone"""
+    import pty
+    import select
+    with common.scratch() as ws:
+        make_ws(ws)
+        master, slave = pty.openpty()
+        p = subprocess.Popen([common.CLI_BIN, "rename", "foo_bar", "baz_qux", "--no-auto-init"], cwd=ws, env=cli_env(ws),
+                             stdin=slave, stdout=slave, stderr=slave, close_fds=True)
+        os.close(slave)
+        seen, t0 = b"", time.time()
+        try:
+            while b"Apply? [y/N]" not in seen and time.time() - t0 < 30 and p.poll() is None:
+                r, _, _ = select.select([master], [], [], 0.2)
+                if r:
+                    try:
+                        chunk = os.read(master, 65536)
+                    except OSError:
+                        break
+                    if not chunk:
+                        break
+                    seen += chunk
+            prompted = b"Apply? [y/N]" in seen
+            lock_during = lock_text(ws)
+            before = {k: v for k, v in tree_snap(ws).items() if not k.startswith(".renamify")}
+            if p.poll() is None:
+                p.send_signal(signal.SIGINT)
+            try:
+                rc = p.wait(timeout=15)
+            except subprocess.TimeoutExpired:
+                p.kill()
+                rc = p.wait()
+        finally:
+            os.close(master)
+        after = {k: v for k, v in tree_snap(ws).items() if not k.startswith(".renamify")}
+        return {"scenario": "prompt_sigint", "prompted": prompted, "lock_during_prompt": lock_during is not None,
+                "rc": rc, "lock_gone": lock_text(ws) is None, "touched": before != after}
+
+
 def scenario_release(ctx, how):
     """the lock is gone once the holder has exited: normally, with an error, after SIGINT / SIGTERM"""
     with common.scratch() as ws:
@@ -317,8 +389,8 @@ def shim_available():
     return True, ""
 
 
-KIND_OPS = {"exists": "exists", "open": "openr", "read": "read", "unlink": "unlink", "mkdir": "mkdir",
-            "create": "openw", "write": "write", "dropexists": "exists", "dropunlink": "unlink"}
+KIND_OPS = {"exists": ("exists",), "open": ("openr",), "read": ("read",), "unlink": ("unlink",), "mkdir": ("mkdir",),
+            "create": ("openw", "link"), "write": ("write",), "dropexists": ("exists", "openr"), "dropunlink": ("unlink",)}
 
 INITS = {
     # name -> (model initial-cell, injected file content as a function of name->pid, extra time for newcomers)
@@ -333,7 +405,9 @@ BLOCKED = ("eexist", "read-invalid")
 
 
 def relevant(ev):
-    return ev.path.endswith("renamify.lock") or ev.op == "kill0" or (ev.op == "mkdir" and ev.path == ".renamify")
+    """calls on the lock path itself (not on the private `renamify.lock.<pid>.tmp`), the liveness probe, mkdir -p"""
+    return (ev.path.endswith("renamify.lock") or (ev.path2 or "").endswith("renamify.lock") or ev.op == "kill0"
+            or (ev.op == "mkdir" and ev.path == ".renamify"))
 
 
 def classify_stderr(text):
@@ -351,6 +425,10 @@ def classify_stderr(text):
         return "remove-stale-enoent"
     if "Failed to remove orphaned lock file" in text:
         return "remove-orphaned-enoent"
+    if "Failed to remove empty lock file" in text:
+        return "remove-empty-enoent"
+    if "Failed to remove unparsable lock file" in text:
+        return "remove-unparsable-enoent"
     if "panicked" in text:
         return "panicked"
     return "running"
@@ -431,9 +509,9 @@ def run_real_schedule(shim, init, n, schedule, model, held_age=None, cmds=None):
 
             if held_age is not None:
                 # bring the holder to the point where acquire has returned
-                for _ in range(4):
+                for _ in range(8):
                     ev = advance("P0")
-                    if ev is None:
+                    if ev is None or "Lock acquired" in stderr_of("P0"):
                         break
                     s.step("P0")
                 advance("P0")
@@ -448,19 +526,20 @@ def run_real_schedule(shim, init, n, schedule, model, held_age=None, cmds=None):
                 done = ""
                 if kind in KIND_OPS:
                     ev = advance(name)
-                    if ev is None or ev.op != KIND_OPS[kind]:
+                    if ev is None or ev.op not in KIND_OPS[kind]:
                         obs["mismatch"] = {"step": len(obs["steps"]), "proc": p, "model_call": kind,
                                            "real_pending": None if ev is None else ev.raw}
                         break
                     done = s.step(name)
-                    if kind == "read":
+                    if kind == "read" or (kind == "dropexists" and ev.op == "openr"):
+                        # read_to_string = all reads up to EOF (a content-checking Drop opens and reads, too)
                         while True:
                             ev2 = advance(name)
                             if ev2 is not None and ev2.op == "read":
                                 s.step(name)
                             else:
                                 break
-                    if kind == "dropexists":
+                    if kind == "dropunlink":
                         holding.discard(p)
                 elif kind == "decide":
                     ev = advance(name)
@@ -474,11 +553,14 @@ def run_real_schedule(shim, init, n, schedule, model, held_age=None, cmds=None):
                         obs["mismatch"] = {"step": len(obs["steps"]), "proc": p, "model_call": kind,
                                            "real_pending": "process did not exit"}
                         break
-                if kind == "write" and done.partition(" => ")[2].strip().isdigit():
+                published = kind == "write" or (kind == "create" and " link " in done)
+                if published and done.partition(" => ")[2].strip().isdigit():
                     wrote.add(p)
-                advance(name)
-                if kind == "write" and acquired(p):
+                nxt = advance(name)
+                if published and acquired(p):
                     holding.add(p)
+                if nxt is None:
+                    holding.discard(p)      # the process is gone (a Drop that found a foreign file removes nothing)
                 maxholders = max(maxholders, len(holding))
                 obs["steps"].append(f"{p}:{kind}" + (" => " + done.partition(" => ")[2] if done else ""))
             # observation at the end of the schedule, before anybody is released
@@ -513,7 +595,7 @@ def run_real_schedule(shim, init, n, schedule, model, held_age=None, cmds=None):
                     if ev is None:
                         break
                     d = s.step(name)
-                    if ev.op == "write" and d.partition(" => ")[2].strip().isdigit():
+                    if ev.op in ("write", "link") and d.partition(" => ")[2].strip().isdigit():
                         wrote.add(i)
                 advance(name)
                 if outcome[i] == "running" and acquired(i):
@@ -644,7 +726,9 @@ def scheduled_stage(ctx, one, model_enum):
     one("C12_witness_stale_race", "stale", 2, race, expect_findings=("stale_race",))
     one("C12_witness_exit_race", "absent", 3, [0, 0, 0, 0, 1, 1, 1, 0, 0, 0, 0, 2, 2, 2, 2, 1, 1, 1, 1, 1],
         expect_findings=("exit_race",))
-    one("C12_witness_malformed_blocks", "empty", 2, [0] * 6 + [1] * 6, expect_findings=("malformed_blocks",))
+    one("C12_witness_malformed_blocks", "garbage", 2, [0] * 6 + [1] * 6,
+        expect_findings=("malformed_blocks",) if (ctx.cov.get("source_variant") or {}).get("abandon") != "unparsable"
+        else ("unparsable_cleaner_race",))
     one("C12_witness_stale_live_evicted", "held:now-301", 2, [1] * 8, held_age=301, expect_findings=("stale_live_evicted",))
     one("live holder keeps a newcomer out", "held:now-10", 2, [1] * 4, held_age=10)
     # two real `rename` commands: the loser must leave the tree exactly as the winner alone leaves it
@@ -663,8 +747,12 @@ def scheduled_stage(ctx, one, model_enum):
                           note="the process whose acquire failed changed the tree")
     one("rename vs rename, orphan race", "orphaned", 2, race, expect_findings=("orphan_race",), cmds=pair)
     rng = ctx.rng
+    variant = ctx.cov.get("source_variant") or {"abandon": "none"}
+    # an unparsable file either blocks (malformed_blocks) or is cleaned up by a check-then-unlink like an orphaned one
+    f_empty = ("malformed_blocks",) if variant["abandon"] == "none" else ("unparsable_cleaner_race",)
+    f_garbage = ("unparsable_cleaner_race",) if variant["abandon"] == "unparsable" else ("malformed_blocks",)
     plan = [("orphaned", "glue", ("orphan_race",)), ("stale", "glue", ("stale_race",)),
-            ("empty", "glue", ("malformed_blocks",)), ("garbage", "glue", ("malformed_blocks",)),
+            ("empty", "glue", f_empty), ("garbage", "glue", f_garbage),
             ("invalid", "glue", ("malformed_blocks",))]
     for init, mode, finds in plan:
         all_s = model_enum(INITS[init][0], 2, mode)
@@ -723,6 +811,32 @@ def judge_release(ctx, info):
     if not info["acquired"] or not info["lock_gone"] or info["rc"] != info["expect_rc"]:
         ctx.violation("argv", info, expected=f"holder exits with {info['expect_rc']} and the lock file is gone",
                       observed=f"acquired={info['acquired']} rc={info['rc']} lock_gone={info['lock_gone']}")
+
+
+def judge_dry_run(ctx, info):
+    ctx.case(("dry_run", info["name"], info["held"]), nontrivial=True)
+    ctx.count(f"dry_run:{info['name']}:{'held' if info['held'] else 'fresh'}:rc={info['rc']}")
+    if info["touched"] or not info["lock_intact"]:
+        ctx.violation("argv", info, expected="a dry run / search changes nothing (no plan, no lock file, no .renamify/)",
+                      observed=info["diff"] or "lock file changed")
+    elif info["refused"]:
+        ctx.broke("translator", "Gen.LockUsers.table (unlessDryRun) vs CLI",
+                  {"cmd": info["name"], "detail": "a dry run was refused under a held lock", "stderr": info["stderr"]})
+    elif info["rc"] != 0:
+        ctx.notes.append(f"dry run `{info['name']}` exited {info['rc']}: {info['stderr']}")
+
+
+def judge_prompt(ctx, info):
+    ctx.case(("prompt_sigint",), nontrivial=True)
+    ctx.count("prompt_sigint:" + ("prompted" if info["prompted"] else "no-prompt"))
+    if not info["prompted"]:
+        ctx.notes.append("prompt_sigint: the confirmation prompt did not appear on the pty; scenario not evaluated")
+        return
+    if not info["lock_during_prompt"]:
+        ctx.violation("argv", info, expected="rename holds the lock while it waits for confirmation", observed="no lock file")
+    elif info["rc"] != 130 or not info["lock_gone"] or info["touched"]:
+        ctx.violation("argv", info, expected="exit 130, tree unchanged, lock file gone after Ctrl-C at the prompt",
+                      observed=f"rc={info['rc']} lock_gone={info['lock_gone']} touched={info['touched']}")
 
 
 def judge_injected(ctx, info, build):
@@ -827,6 +941,7 @@ def table_from_translator(ctx):
         return None
     names = {"Plan": "plan", "Rename": "rename", "Apply": "apply", "Undo": "undo", "Redo": "redo", "Replace": "replace",
              "TestLock": "test-lock", "Search": "search", "Init": "init"}
+    ctx.cov["source_variant"] = {"abandon": lock["abandon"], "publish_by_link": lock["by_link"]}
     return {names.get(r["cmd"], r["cmd"].lower()): r["locks"] for r in rows}
 
 
@@ -901,6 +1016,10 @@ def run(ctx):
                 ctx.sample({"op": "under_lock", "cmd": cmd, "refused": info["refused"], "touched": info["touched"]})
     for how in ("normal", "error", "SIGINT", "SIGTERM", "SIGKILL-then-next"):
         judge_release(ctx, scenario_release(ctx, how))
+    judge_prompt(ctx, scenario_prompt_sigint(ctx))
+    for name in DRY_RUNS:
+        judge_dry_run(ctx, scenario_dry_run(ctx, name, True))
+        judge_dry_run(ctx, scenario_dry_run(ctx, name, False))
     for name in ("orphaned", "stale", "empty", "garbage", "future"):
         judge_injected(ctx, scenario_injected(ctx, name), build)
     judge_stale_live(ctx, scenario_stale_live(ctx, False))
@@ -931,6 +1050,10 @@ def replay(ctx, path):
         judge_release(ctx, scenario_release(ctx, case["how"]))
     elif sc == "injected":
         judge_injected(ctx, scenario_injected(ctx, case["name"]), build)
+    elif sc == "dry_run":
+        judge_dry_run(ctx, scenario_dry_run(ctx, case["name"], bool(case.get("held"))))
+    elif sc == "prompt_sigint":
+        judge_prompt(ctx, scenario_prompt_sigint(ctx))
     elif sc == "stale_live":
         judge_stale_live(ctx, scenario_stale_live(ctx, bool(case.get("foreign_drop"))))
     elif sc == "lockseq":
